@@ -98,7 +98,7 @@ def sig_solrec(prob, ineq_tol=1e-8, eq_tol=1e-6, skip_ls=False):
         # only happens in "constrained_sage_dual".
         lag_gts = metadata['gts']
         lag_eqs = metadata['eqs']
-    lagrangian = _make_dummy_lagrangian(f, lag_gts, lag_eqs)
+    lagrangian = _make_dummy_lagrangian(f, lag_gts, lag_eqs, metadata['lagrangian'])
     if con.X is None:
         X_gts, X_eqs = [], []
     else:
@@ -196,7 +196,13 @@ def _dual_age_cone_solution_recovery(con, v, M, gts, eqs, ineq_tol, eq_tol):
     return mus
 
 
-def _make_dummy_lagrangian(f, gts, eqs):
+def _make_dummy_lagrangian(f, gts, eqs, lagrangian=None):
+    if lagrangian is not None:
+        # Constraints that the relaxation left out of its Lagrangian (for q >= 2, products with
+        # a single term are dropped) contribute no moments from which a solution could be recovered.
+        present = lagrangian.alpha_c
+        gts = [g for g in gts if all(a in present for a in g.alpha_c)]
+        eqs = [g for g in eqs if all(a in present for a in g.alpha_c)]
     dummy_gamma = cl.Variable(shape=())
     if len(gts) > 0:
         dummy_slacks = cl.Variable(shape=(len(gts),))
